@@ -1,6 +1,7 @@
 package harness
 
 import (
+	"strings"
 	"fmt"
 	"testing"
 	"time"
@@ -64,7 +65,7 @@ func drawC16(t *rapid.T) *c16Scenario {
 		n := rapid.IntRange(1, 3).Draw(t, "nClaims")
 		for i := 0; i < n; i++ {
 			s.Claims = append(s.Claims, c16Claim{Registered: rapid.IntRange(0, 3).Draw(t, "registered") > 0, Listed: rapid.IntRange(0, 2).Draw(t, "listed") == 0,
-				Node: rapid.SampledFrom([]string{"absent", "notready", "ready", "ready"}).Draw(t, "node"), Deleting: rapid.IntRange(0, 6).Draw(t, "deleting") == 0})
+				Node: rapid.SampledFrom([]string{"absent", "notready", "ready", "ready", "ready-terminating", "notready-terminating"}).Draw(t, "node"), Deleting: rapid.IntRange(0, 6).Draw(t, "deleting") == 0})
 		}
 	case "liveness":
 		s.Launched = rapid.Bool().Draw(t, "launched")
@@ -224,7 +225,12 @@ func runC16(s *c16Scenario, faultIdx int) *c16Run {
 				w.Provider.Adopt(nc, sim.LaunchOption{Type: c14Catalog[0], Offering: c14Catalog[0].Offerings[0], OS: "linux"})
 			}
 			if cl.Node != "absent" {
-				w.Apply(c16Node(fmt.Sprintf("node-%d", i), id, pool.Name, cl.Node == "ready", now.Add(-time.Hour)))
+				n := c16Node(fmt.Sprintf("node-%d", i), id, pool.Name, strings.HasPrefix(cl.Node, "ready"), now.Add(-time.Hour))
+				w.Apply(n)
+				if strings.HasSuffix(cl.Node, "-terminating") {
+					// the Node is being deleted (held by its finalizer) - it is still present, and Ready or not as before
+					w.Delete(n)
+				}
 			}
 			if cl.Deleting {
 				w.Delete(nc)
@@ -246,7 +252,7 @@ func runC16(s *c16Scenario, faultIdx int) *c16Run {
 				violate("gc:unregistered", "%s deleted by garbage collection although it never registered", name)
 			case cl.Listed:
 				violate("gc:instance-still-listed", "%s deleted although the provider still lists its instance", name)
-			case cl.Node == "ready":
+			case strings.HasPrefix(cl.Node, "ready"):
 				sig := "gc:node-ready"
 				if faultBeforeDelete {
 					sig = "gc:node-ready:lookup-failed"
